@@ -286,7 +286,7 @@ func coldStartBurst() {
 			out = append(out, fmt.Sprintf("%s %v", props.Dump(cmds, 0), err))
 		}
 		// printing with different Configs at the same time
-		if cmds, _, err := parser.ParseCommands(nil, "sim", progs[g%3]); err == nil {
+		if cmds, _, err := parser.ParseCommands(nil, "sim", "if a; then\n b\n while c; do\n  d\n  { e\n   f; }\n done\nelse\n case x in\n a)\n  g;;\n esac\nfi\n"); err == nil {
 			for i := 0; i < 40; i++ {
 				var b strings.Builder
 				cfg := printer.Config{Indent: []printer.Style{printer.Tab, printer.Space}[g%2], Width: 2 + g%3}
